@@ -365,6 +365,17 @@ d = pe(VMC, FN, "vmc_bwd", "loop", 1, [], P, ["state", "tweak"], ["state", "twea
 d = pe(VMC, FN, "vmc_post", "seg", 2, [], P, ["output"], ["state", "tweak", "k1", "ks"]); d["veclanes"] = "explicit"; d["windows"] = {"r": 8}; vp.append(d)
 mods.append({"name": "VecMantisCtrPieces", "imports": ["VecMantisCtrLeaf"], "entries": vp})
 
+# ---------------------------------------------------------------- keystream xor helpers of skinny-internal.h (used by every CTR back end)
+XF = "src/skinny128-ctr.c"
+xe = []
+for tag, fl in (("w64", []), ("w32", ["-DSKINNY_VERIF_64BIT=0"]), ("bytes", ["-DSKINNY_VERIF_UNALIGNED=0"])):
+    for fn, n in (("skinny128_xor", 16), ("skinny64_xor", 8)):
+        d = e(XF, fn, f"{fn}_{tag}", fl, None, {"output": {"bytes": n, "out": True}, "input1": {"bytes": n}, "input2": {"bytes": n}})
+        xe.append(d)
+for k in range(1, 16):
+    xe.append(e(XF, "skinny_xor", f"skinny_xor_{k}", [], None, {"output": {"bytes": k, "out": True}, "input1": {"bytes": k}, "input2": {"bytes": k}, "size": {"const": k}}))
+mods.append({"name": "XorLeaf", "entries": xe})
+
 # ---------------------------------------------------------------- argument guards of the public key/tweak setters
 guards = []
 for file, fns in ((S128, ["skinny128_set_key", "skinny128_set_tweaked_key", "skinny128_set_tweak"]),
